@@ -152,6 +152,13 @@ impl TwinEngine {
         if history.iter().any(allocator_call) {
             st.events.insert("split.allocator_used");
         }
+        let with_unread = r1.m.groups.keys().filter(|g| r1.m.unread_in_group(**g) >= 1).count();
+        if with_unread >= 8 {
+            st.events.insert("split.8plus_groups_with_unread");
+        }
+        if r1.m.groups_alive() >= 14 {
+            st.events.insert("split.14_groups_alive");
+        }
         // 2. the twin
         let g2 = match self.make_twin(&r1) {
             Ok(g) => g,
@@ -404,11 +411,17 @@ impl Engine for TwinEngine {
     fn run(&self, case: &TwinCase) -> CaseReport {
         // history H: generated like the gcmodel engine, without epilogue
         let cfg = gen::cfg_of(&case.hist);
-        let profiles = [Profile::GcOrders, Profile::Overwrite, Profile::Forest, Profile::Alloc, Profile::Readd];
+        let profiles = [Profile::GcOrders, Profile::Overwrite, Profile::Forest, Profile::Alloc, Profile::Readd, Profile::ManyGroups, Profile::ManyGroups];
         let profile = profiles[(case.hist.profile_sel as usize * profiles.len()) >> 8];
         let mut r = Runner::new(cfg);
         let mut history = vec![];
         let mut closed = false;
+        for call in gen::prelude(profile, &case.hist, cfg) {
+            if r.valid(&call) {
+                r.step(&call);
+                history.push(call);
+            }
+        }
         for seed in &case.hist.ops {
             if let Some(call) = gen::resolve(seed, &r.m, profile) {
                 if !r.valid(&call) {
